@@ -732,7 +732,7 @@ def c11(ctx):
         return do_replay(ctx)
     jobs = []
     if ctx.quick:
-        plan = [("rel", db, 4, 24, 0) for db in range(4)] + [("asan", 10, 8, 64, 0)]
+        plan = [("rel", db, 5, 48, 0) for db in range(3)] + [("asan", 10, 12, 96, 0)]
         plan = [(fl, db, n, st, ex, range(n) if fl == "rel" else range(1)) for fl, db, n, st, ex in plan]
     else:
         plan = [("rel", db, 16, 1, 1, range(16)) for db in range(6)] + [("asan", 10 + db, 16, 8, 0, range(4)) for db in range(2)]
